@@ -600,7 +600,9 @@ class Engine:
         if isinstance(v, Ptr):
             return v
         if isinstance(v, Iter):
-            return ElemRef(v.oid, self.iter_index(st, v))
+            idx = self.iter_index(st, v)
+            self.oblige(st, 'II', 'vector-iterator-deref:in-range', z3.And(0 <= idx, idx < st.heap[v.oid].len))
+            return ElemRef(v.oid, idx)
         if isinstance(v, PyObj):     # *optional<py::function>
             return v
         if is_z3(v) and v.sort() == Ref:      # shared_ptr<const Registration>
